@@ -127,9 +127,9 @@ func VerifTranscribedTickerRule() map[string]bool {
 // VerifMeasureTicker runs, for each of the 1600 classes of (old timeout, new timeout), two experiments on fresh
 // REAL tickers: A = old(1h) then new(0): a tock for new means "accepted"; B = old(400ms) then new(1h): a tock for
 // old means "ignored". Exactly one of them produces a tock; which one is observed positively (no verdict rests
-// on the absence of an event within a short time). problems lists: a first timeout that never fires, a tock whose
-// content differs from what was scheduled, an order type for which neither/both experiments fire within the
-// watchdog. The caller decides what a problem means.
+// on the absence of an event within a short time). problems lists: a first timeout that never fires, a class for
+// which neither experiment produces the awaited tock within the watchdog. Tocks other than the awaited one
+// (stale or spurious ones, which handleTimeout filters) are ignored.
 func VerifMeasureTicker(watchdog time.Duration) (rule map[string]bool, problems []string) {
 	rule = map[string]bool{}
 	// basic: the first timeout scheduled on a fresh ticker fires and carries what was scheduled
@@ -139,14 +139,18 @@ func VerifMeasureTicker(watchdog time.Duration) (rule map[string]bool, problems 
 		tk.Start()
 		want := timeoutInfo{Duration: 0, Height: 1, Round: 0, Step: cstypes.RoundStepNewHeight}
 		tk.ScheduleTimeout(want)
-		select {
-		case got := <-tk.Chan():
-			if got != want {
-				problems = append(problems, fmt.Sprintf("first-timeout-content: scheduled %v, fired %v", want, got))
+		dead := time.After(watchdog)
+	first:
+		for {
+			select {
+			case got := <-tk.Chan():
+				if got == want {
+					break first
+				}
+			case <-dead:
+				problems = append(problems, "first-timeout-never-fires")
+				return nil, problems
 			}
-		case <-time.After(watchdog):
-			problems = append(problems, "first-timeout-never-fires")
-			return nil, problems
 		}
 	}
 	type res struct {
@@ -183,21 +187,26 @@ func VerifMeasureTicker(watchdog time.Duration) (rule map[string]bool, problems 
 							if time.Since(t0) > ob.Duration/4 && attempt < 4 {
 								continue // the two schedules of B were not close together: the experiment says nothing
 							}
-							select {
-							case got := <-a.Chan():
-								if got != na {
-									ch <- res{key, true, fmt.Sprintf("tock-content: scheduled %v, fired %v", na, got)}
-								} else {
-									ch <- res{key, true, ""}
+							// other tocks (e.g. the spurious initial tock of a fresh ticker whose zero timer fired before it
+							// could be stopped) are what handleTimeout filters by height/round/step: they are not awaited
+							dead := time.After(watchdog)
+						wait:
+							for {
+								select {
+								case got := <-a.Chan():
+									if got == na {
+										ch <- res{key, true, ""}
+										break wait
+									}
+								case got := <-b.Chan():
+									if got == ob {
+										ch <- res{key, false, ""}
+										break wait
+									}
+								case <-dead:
+									ch <- res{key, false, "no-tock-in-either-experiment"}
+									break wait
 								}
-							case got := <-b.Chan():
-								if got != ob {
-									ch <- res{key, false, fmt.Sprintf("tock-content: scheduled %v, fired %v", ob, got)}
-								} else {
-									ch <- res{key, false, ""}
-								}
-							case <-time.After(watchdog):
-								ch <- res{key, false, "no-tock-in-either-experiment"}
 							}
 							return
 						}
